@@ -12,8 +12,8 @@ import os
 import shutil
 
 from mon import refbufr as R
-from mon import handover
-from mon.compare import td_of, jsonable
+from mon import handover, midscan
+from mon.compare import td_of, jsonable, diff_message
 from mon.gen import cases
 from mon.gen.shapes import EdgePolicy
 
@@ -397,6 +397,7 @@ def run(ctx):
                 ctx.count('same_layout_cases')
                 check_pairs(ctx, dec, enc, msg.bytes, [s.meta for s in msg.subsets],
                             dict(origin='shape', shape=name, ids=msg.ids, nsub=nsub, compressed=False, hex=msg.bytes.hex()), 'shape')
+        mid_scan_selections(ctx)
         q = 0
         while q < QUOTA[ctx.tier] and ctx.more():
             q += 1
@@ -423,6 +424,56 @@ def run(ctx):
                 cli_subset(ctx, dec, msg.bytes, spec, scratch, 'r%d' % q)
     finally:
         shutil.rmtree(scratch, ignore_errors=True)
+
+
+def mid_scan_selections(ctx):
+    """subset -> encode -> decode made from the loop body of a running scan (the decoder that is scanning also decodes the encoded
+    selection), for messages that share their descriptor list with the scanned ones but name ANOTHER table version under which an
+    element is defined differently: the selection still decodes to the chosen subsets of its own message"""
+    from pybufrkit.decoder import Decoder
+    from pybufrkit.encoder import Encoder
+    rng = ctx.rng
+    pairs = cases.version_sensitive_pairs()
+    if not pairs:
+        return
+    for rep in range(2 if ctx.quick else 10):
+        e, va, vb = rng.choice(pairs)
+        sets = []
+        try:
+            for v in (va, vb):
+                Bv, Dv = cases.tables(v)
+                part = []
+                for j in range(3):
+                    comp = bool((j + rep) % 2)
+                    msg = R.build_message(cases.pair_ids(e, 'plain'), Bv, Dv, R.Policy(rng), 3, comp, 4,
+                                          dict(master_table_version=v, update_sequence_number=j))
+                    part.append((msg.bytes, msg))
+                sets.append(part)
+        except (R.Unsupported, KeyError):
+            continue
+        cell = {}
+
+        def make():
+            cell['dec'] = Decoder()
+            return cell['dec']
+
+        def judge(kind, m, msg, opts):
+            if kind != 'full':
+                return None
+            I = rng.choice([[0], [2, 0], [1, 2], [0, 1, 2]])
+            sel = sorted(set(I))
+            try:
+                b2 = Encoder().process(m.subset(I)).serialized_bytes
+                m2 = cell['dec'].process(b2)
+            except Exception as ex:
+                return ('selection-round-trip-raises:%s' % type(ex).__name__, 'subset(%r) -> encode -> decode raises %s' % (I, type(ex).__name__))
+            d = diff_message(m2, [msg.subsets[i] for i in sel])
+            if d:
+                return ('selection-round-trip-%s-differ' % d[1], 'subset(%r) -> encode -> decode: %s differ from the chosen subsets: %r' % (I, d[1], jsonable(d[2:])))
+            return None
+        ctx.count('mid_scan_selection_blocks')
+        midscan.scenarios(ctx, 'subset', make, sets[0], sets[1], judge, dict(origin='mid-scan', element=e, versions=[va, vb]),
+                          which=['alternate', 'nested-process', 'nested-scan', 'abandoned'])
 
 
 def replay(ctx, case):
